@@ -11,6 +11,8 @@ D: trees (exhaustive small ones over the converter's vocabulary + random deeper/
    (compositional twin of the C19_form_* theorems, calm schema-shaped trees), no rendered None, determinism, input tree not mutated) runs on the
    implementation's output itself; the HISTORY oracle converts sequences of trees in freshly forked processes
    (tools/props/c19_iso.py) and compares every result with the conversion of the same tree alone.
+   The object-history oracle converts an element, edits the tree in place and converts the same object again
+   (must equal the conversion of a fresh parse of the edited tree).
    common.env_sweep repeats a sample of the conversions (and generated DOCX/PPTX documents) under DEBUG logging,
    in a worker thread, under other time zones and another cwd.
    If the literal extraction fails, the G obligation stays broken and the search continues with the committed
@@ -40,11 +42,12 @@ THEOREMS = [
     "C19_form_nary", "C19_form_delim", "C19_form_matrix", "C19_form_func", "C19_form_bar", "C19_form_acc",
     "C19_own_operator", "C19_texts_in_order_partial",
     "C19_depth_bounded", "C19_depth_equals_height_default",
+    "C19_formulas_each_once", "C19_formulas_result",
 ]
 INST = ["C19_tables_wf", "C19_structural_not_skipped", "C19_nobrace_witnesses",
         "C19_orig_total_refuted", "C19_orig_balanced_refuted", "C19_orig_balanced_refuted_deg_order",
         "C19_orig_own_operator_refuted", "C19_orig_none_rendered", "C19_known_witnesses_repaired",
-        "C19_tables_wf_txt", "C19_texts_ok_nonvacuous", "C19_depth_examples"]
+        "C19_tables_wf_txt", "C19_texts_ok_nonvacuous", "C19_depth_examples", "C19_formulas_example"]
 
 
 # ----------------------------------------------------------------------------- G: tables
@@ -1094,8 +1097,8 @@ def run(ctx):
         return
     lost = lost_chars(tabs)
 
-    ctx.prove("C19/Props.v", ["C19/Proofs.vo", "C19/Texts.vo", "C19/Depth.vo"], expected=THEOREMS)
-    ctx.prove("C19/Inst.v", ["Gen/C19Tables.vo", "C19/Corr.vo", "C19/Proofs.vo", "C19/TextSpec.vo", "C19/Depth.vo"], expected=INST)
+    ctx.prove("C19/Props.v", ["C19/Proofs.vo", "C19/Texts.vo", "C19/Depth.vo", "C19/Formulas.vo"], expected=THEOREMS)
+    ctx.prove("C19/Inst.v", ["Gen/C19Tables.vo", "C19/Corr.vo", "C19/Proofs.vo", "C19/TextSpec.vo", "C19/Depth.vo", "C19/Formulas.vo"], expected=INST)
 
     # ---- history oracle (forked processes; independent of what this process has converted so far)
     history_oracle(ctx, mod, tabs)
@@ -1117,9 +1120,9 @@ def run(ctx):
             continue
         seen.add(tree)
         c, info = check_tree(ctx, mod, tabs, tree, lost, kind)
-        # quick tier: the kernel-evaluated model sees 2 of 3 trees of the four largest families (every tree still goes
+        # quick tier: the kernel-evaluated model sees every second tree of the four largest families (every tree still goes
         # through all oracles, incl. the Python twin of the model); thorough tier: all of them
-        if ctx.tier == "quick" and kind in ("exh1:d", "random", "malformed", "seq3") and len(seen) % 3 == 0:
+        if ctx.tier == "quick" and kind in ("exh1:d", "random", "malformed", "seq3") and len(seen) % 2 == 0:
             ctx.count("not-sent-to-coq(quick)")
             continue
         coq_cases.append(c)
@@ -1162,6 +1165,8 @@ def run(ctx):
     entry_points(ctx, mod)
     deep_and_pptx(ctx, mod, tabs)
     environment_sweep(ctx, mod, cases)
+    formula_collectors(ctx, mod, tabs)
+    object_history_oracle(ctx, mod, cases)
 
 
 def entry_points(ctx, mod):
@@ -1247,6 +1252,216 @@ def environment_sweep(ctx, mod, cases):
         r = list(pptx_extractor.read_pptx(pptx_bytes(f'<a14:m xmlns:a14="{A14}">{fx}</a14:m>'), path="f.pptx"))[0]
         return (r.get_full_text(), [(f.latex, f.is_display) for sl in r.slides for f in sl.formulas])
     common.env_sweep(ctx, "formula-documents", extract, docs, describe=short)
+
+
+COLLECTOR_SHAPE = {"iter(M_OMATHPARA)": 1, "find(M_OMATH)": 1, "iter(M_OMATH)": 1, "omml_to_latex": 2, "id": 2, "strip": 2,
+                   "for": 2, "add": 1, "append": 2}
+
+
+def collector_shape(fn):
+    """coarse, fail-closed signature of a formula collector read from its ast: which look-ups, how many conversions,
+    identity tests, blank tests, loops"""
+    import textwrap
+    tree = ast.parse(textwrap.dedent(inspect.getsource(fn)))
+    sig = {}
+
+    def bump(k):
+        sig[k] = sig.get(k, 0) + 1
+    for n in ast.walk(tree):
+        if isinstance(n, (ast.For, ast.While, ast.ListComp, ast.GeneratorExp, ast.SetComp)):
+            bump("for")
+        if isinstance(n, ast.Call):
+            f = n.func
+            if isinstance(f, ast.Attribute) and f.attr in ("iter", "find", "findall", "iterfind"):
+                bump(f"{f.attr}({ast.unparse(n.args[0]) if n.args else ''})")
+            elif isinstance(f, ast.Attribute) and f.attr in ("strip", "add", "append", "extend", "discard", "remove"):
+                bump(f.attr)
+            elif isinstance(f, ast.Name) and f.id in ("omml_to_latex", "id"):
+                bump(f.id)
+    return sig
+
+
+def formula_collectors(ctx, mod, tabs):
+    """docx_extractor._extract_formulas_from_context and pptx_extractor._extract_formulas_from_element against the
+    Coq model C19.Formulas.collect, on generated scopes; plus the located-exactly-once oracle on their output"""
+    from types import SimpleNamespace
+    from sharepoint2text.parsing.extractors.ms_modern import docx_extractor, pptx_extractor
+    fns = {"docx": docx_extractor._extract_formulas_from_context, "pptx": pptx_extractor._extract_formulas_from_element}
+    for nm, fn in fns.items():
+        try:
+            sig = collector_shape(fn)
+        except Exception as ex:  # noqa
+            sig = {"error": repr(ex)}
+        ctx.obligation(f"inventory:{nm} formula collector has the modelled shape", sig == COLLECTOR_SHAPE,
+                       f"ast signature {sig}, modelled {COLLECTOR_SHAPE}")
+    rng = ctx.rng
+    body_texts = ["a", "b+c", " ", "", "α", "(", "x)", "\t"]
+
+    def formula(depth=0):
+        r = rng.random()
+        items = []
+        for _ in range(rng.choice([0, 1, 1, 2])):
+            k = rng.random()
+            if k < 0.5:
+                items.append(mrun(rng.choice(body_texts)))
+            elif k < 0.7:
+                items.append(N("m:f", N("m:num", mrun(rng.choice(body_texts))), N("m:den", mrun("2"))))
+            elif k < 0.8:
+                items.append(N("m:rad", N("m:deg"), N("m:e", mrun(rng.choice(["(", "y"])))))
+            elif k < 0.9 and depth < 2:
+                items.append(formula(depth + 1))          # m:oMath nested in m:oMath (iter finds both)
+            else:
+                items.append(N("m:box", N("m:e", mrun("q"))))
+        return N("m:oMath", *items)
+
+    def para():
+        kids = []
+        if rng.random() < 0.5:
+            kids.append(N("m:oMathParaPr", N("m:jc", val="center")))
+        for _ in range(rng.choice([0, 1, 1, 2, 3])):
+            kids.append(formula())
+        if rng.random() < 0.15:
+            kids.insert(rng.randint(0, len(kids)), N("w:r", N("w:t", text="t")))
+        if rng.random() < 0.1:
+            kids.append(para())
+        return N("m:oMathPara", *kids)
+
+    def block(depth):
+        kids = []
+        for _ in range(rng.randint(0, 4)):
+            k = rng.random()
+            if k < 0.3:
+                kids.append(formula())
+            elif k < 0.55:
+                kids.append(para())
+            elif k < 0.7:
+                kids.append(N("w:r", N("w:t", text=rng.choice(body_texts))))
+            elif depth < 3:
+                kids.append(block(depth + 1))
+        return N(rng.choice(["w:p", "w:tbl", "w:tc", "a14:m", "mc:Choice", "w:sdt"]), *kids)
+
+    decl = (NSDECL + ' xmlns:a14="http://schemas.microsoft.com/office/drawing/2010/main" '
+            'xmlns:mc="http://schemas.openxmlformats.org/markup-compatibility/2006"')
+    scopes = [N("w:body", *[block(0) for _ in range(rng.randint(1, 4))]) for _ in range(ctx.n(250, 2500))]
+    scopes += [formula(), para(), N("w:body"), N("w:body", para(), para(), formula())]
+    ns = "{" + MATH + "}"
+    coq, reported = [], 0
+    for sc in scopes:
+        xml = to_xml(sc, root=True).replace(NSDECL, decl, 1)
+        root = ET.fromstring(xml)
+        res = {}
+        for nm, fn in fns.items():
+            try:
+                r = fn(SimpleNamespace(document_body=root)) if nm == "docx" else fn(root)
+                res[nm] = [(f.latex, f.is_display) if hasattr(f, "latex") else tuple(f) for f in r]
+            except Exception as ex:  # noqa
+                res[nm] = ("EXC", type(ex).__name__)
+        ctx.case(("collect", xml), any(True for _ in root.iter(ns + "oMath")), kind="formula-collectors")
+        # property oracle on the implementation: every m:oMath of the scope exactly once (blank ones dropped), display
+        # exactly for the first m:oMath child of an m:oMathPara
+        firsts = set()
+        for pa in root.iter(ns + "oMathPara"):
+            om = pa.find(ns + "oMath")
+            if om is not None:
+                firsts.add(id(om))
+        want = sorted((mod.omml_to_latex(om), id(om) in firsts) for om in root.iter(ns + "oMath")
+                      if mod.omml_to_latex(om).strip())
+        for nm in fns:
+            if isinstance(res[nm], tuple) or sorted(res[nm]) != want or (nm == "pptx" and res["docx"] != res["pptx"]):
+                reported += 1
+                if reported <= 2:
+                    ctx.finding(f"formula-collector:{nm}:{to_xml(sc)}"[:300],
+                                f"{nm} collector returns {res[nm]} for {to_xml(sc)[:300]}; every m:oMath exactly once with its "
+                                f"display flag would be (sorted) {want}; pptx collector: {res['pptx']}",
+                                {"scope_xml": xml, "got": res, "want_sorted": want})
+                break
+        if not isinstance(res["pptx"], tuple):
+            exp = coq_list([f"({coq_str(l)}, {'true' if d else 'false'})" for l, d in res["pptx"]])
+            coq.append(f"({el_to_coq(root)}, {exp})")
+    pre = PREAMBLE.replace("C19.Corr", "C19.Corr C19.Formulas")
+    ok, failing, log = coq_eval_shards(ctx, "collect", pre, "(formulas_case T)", coq, shard=400,
+                                       ty="omml * list (str * bool)")
+    ctx.obligation("correspondence:model collect == docx/pptx formula collectors on generated scopes", ok and not failing,
+                   (f"{len(failing)} disagreements, first: {coq[failing[0]][:600] if failing else ''} " + log)[:1500])
+    ctx.extra["collector_cases"] = len(coq)
+
+
+def object_history_oracle(ctx, mod, cases):
+    """The result is a function of the tree VALUE at call time, not of the element object or of what was converted
+    from it before: convert an element, edit the tree in place (text, attribute, removed / added / replaced
+    children), convert the SAME object again and compare with the conversion of a freshly parsed copy of the edited
+    tree; also two distinct objects with equal content, and the first tree again after the edit was undone."""
+    import copy
+    rng = ctx.rng
+    trees = sorted({to_xml(t, root=True) for _, t in cases}, key=lambda x: (len(x), x))
+    sample = trees[5:125] + rng.sample(trees[125:], min(100, max(0, len(trees) - 125)))
+    ns = "{" + MATH + "}"
+    conv = lambda el: _safe_conv(mod, el)
+    reported = 0
+    for x in sample:
+        root = ET.fromstring(x)
+        first = conv(root)
+        if conv(ET.fromstring(x)) != first:
+            continue            # not even stable for equal content: reported by the determinism oracle
+        els = [e for e in root.iter() if e is not root]
+        edits = []
+        ts = [e for e in els if local(e.tag) == "t"]
+        if ts:
+            edits.append(("text", rng.choice(ts)))
+        if els:
+            edits.append(("remove", rng.choice(els)))
+            edits.append(("append", rng.choice(els)))
+        vals = [e for e in els if ns + "val" in e.attrib]
+        if vals:
+            edits.append(("attr", rng.choice(vals)))
+        edits.append(("replace-children", root))
+        for kind, target in edits:
+            work = ET.fromstring(x)
+            before = conv(work)
+            # locate the same node in the working copy by its position in iteration order
+            idx = [e for e in root.iter()].index(target)
+            node = [e for e in work.iter()][idx]
+            parent = next((p for p in work.iter() if node in list(p)), None)
+            if kind == "text":
+                node.text = (node.text or "") + "Z9"
+            elif kind == "remove" and parent is not None:
+                parent.remove(node)
+            elif kind == "append":
+                node.append(ET.fromstring(f'<m:r xmlns:m="{MATH}"><m:t>Q7</m:t></m:r>'))
+            elif kind == "attr":
+                node.set(ns + "val", "#")
+            elif kind == "replace-children":
+                for c in list(work):
+                    work.remove(c)
+                work.append(ET.fromstring(f'<m:r xmlns:m="{MATH}"><m:t>W5</m:t></m:r>'))
+            else:
+                continue
+            after_xml = ET.tostring(work, encoding="unicode")
+            got = conv(work)
+            want = conv(ET.fromstring(after_xml))
+            ctx.case(("object-history", kind, x), True, kind="object-history")
+            twin_obj = conv(copy.deepcopy(work))
+            if got != want or twin_obj != want:
+                reported += 1
+                if reported <= 2:
+                    short = lambda z: re.sub(r' xmlns:\w+="[^"]*"', "", z)
+                    ctx.finding(f"stale-after-in-place-edit:{kind}:{short(x)}"[:300],
+                                f"converting {short(x)} -> {before!r}, editing the SAME element object in place ({kind}) to "
+                                f"{short(after_xml)} and converting it again -> {got!r}; a freshly parsed copy of the edited tree "
+                                f"converts to {want!r} (deep copy: {twin_obj!r})",
+                                {"xml_before": x, "edit": kind, "xml_after": after_xml, "first": before,
+                                 "second_same_object": got, "fresh_parse_of_edited_tree": want,
+                                 "replay": "e=ET.fromstring(xml_before); omml_to_latex(e); apply the edit in place; omml_to_latex(e)"})
+                break
+        if reported > 2:
+            ctx.count("further-failures:stale-after-in-place-edit")
+
+
+def _safe_conv(mod, el):
+    try:
+        return mod.omml_to_latex(el)
+    except Exception as ex:  # noqa
+        return ("EXC", type(ex).__name__)
 
 
 def chain_formula(n, kind):
